@@ -59,3 +59,36 @@ impl<K, V> HashMap<K, V> {
     #[verifier::external_body] pub fn len(&self) -> (r: usize) ensures r == self@.dom().len() { unimplemented!() }
     #[verifier::external_body] pub fn clear(&mut self) ensures final(self)@ == Map::<K, V>::empty() { unimplemented!() }
 }
+
+// `map.retain(|_, v| v != x)` is written `map.retain_values_ne(x)` by rule R17 (the closure is trusted to be that predicate)
+impl<K, V> HashMap<K, V> {
+    #[verifier::external_body] pub fn retain_values_ne(&mut self, x: &V)
+        ensures final(self)@.dom() == old(self)@.dom().filter(|k: K| old(self)@[k] != *x),
+                forall|k: K| final(self)@.dom().contains(k) ==> final(self)@[k] == old(self)@[k] { unimplemented!() }
+    #[verifier::external_body] pub fn is_empty(&self) -> (r: bool) ensures r == (self@.dom().len() == 0) { unimplemented!() }
+}
+
+// a map keyed by strings, viewed by the key's BYTES (DashMap<String, V> / HashMap<String, V>); R9: interior
+// mutability of DashMap is written as &mut access (sequential abstraction)
+#[verifier::reject_recursive_types(V)]
+#[verifier::external_body]
+pub struct StrMap<V> { _v: core::marker::PhantomData<V> }
+impl<V> StrMap<V> {
+    pub uninterp spec fn view(&self) -> Map<Seq<u8>, V>;
+    #[verifier::external_body] pub fn insert(&mut self, k: Str, v: V) -> (r: Option<V>)
+        ensures final(self)@ == old(self)@.insert(k@, v) { unimplemented!() }
+    #[verifier::external_body] pub fn remove(&mut self, k: &Str) -> (r: Option<V>)
+        ensures final(self)@ == old(self)@.remove(k@),
+                old(self)@.dom().contains(k@) ==> r == Some(old(self)@[k@]), !old(self)@.dom().contains(k@) ==> r.is_none() { unimplemented!() }
+    #[verifier::external_body] pub fn contains_key(&self, k: &Str) -> (r: bool) ensures r == self@.dom().contains(k@) { unimplemented!() }
+}
+
+// `map.drain().collect()` is written `map.drain_to_vec()` by rule R18: all entries, each key once, map left empty
+impl<K, V> HashMap<K, V> {
+    #[verifier::external_body] pub fn drain_to_vec(&mut self) -> (r: Vec<(K, V)>)
+        ensures final(self)@ == Map::<K, V>::empty(),
+                forall|i: int, j: int| 0 <= i < j < r@.len() ==> r@[i].0 != r@[j].0,
+                forall|i: int| 0 <= i < r@.len() ==> old(self)@.dom().contains(#[trigger] r@[i].0) && old(self)@[r@[i].0] == r@[i].1,
+                forall|k: K| old(self)@.dom().contains(k) ==> exists|i: int| 0 <= i < r@.len() && #[trigger] r@[i].0 == k,
+    { unimplemented!() }
+}
